@@ -129,6 +129,69 @@ func wiringThroughHelper(c *Check, fn *ssa.Function, callee string) *callWiring 
 	return w
 }
 
+// destinationWiring: what reaches each field of the Destination that destination.New builds, seen from
+// the (single) call of destination.New inside fn. The constructor's inputs — positional parameters, or
+// the fields of a configuration struct it receives — are followed through New's stores into the
+// Destination fields and bound back to the call's arguments; the result is keyed by the logical
+// parameter names of the frozen tables (destParamField: parameter -> Destination field). The second
+// result holds, per Destination field, the sources of the stores inside New itself.
+func destinationWiring(c *Check, fn *ssa.Function) (*callWiring, map[string][]srcInfo) {
+	callee := modPath + "/destination.New"
+	var call *ssa.Call
+	allInstrs(fn, func(in ssa.Instruction) {
+		if x, ok := in.(*ssa.Call); ok && calleeName(x.Common()) == callee {
+			call = x
+		}
+	})
+	if call == nil {
+		anchorFail("%s: no call to %s", FuncName(fn), short(callee))
+	}
+	dn := call.Call.StaticCallee()
+	inNew := map[string][]srcInfo{}
+	slNew := newSlicer(c.P, dn)
+	allInstrs(dn, func(in ssa.Instruction) {
+		st, ok := in.(*ssa.Store)
+		if !ok {
+			return
+		}
+		fa, ok := st.Addr.(*ssa.FieldAddr)
+		if !ok || !strings.HasSuffix(fa.X.Type().String(), "destination.Destination") {
+			return
+		}
+		name := fieldOfAddr(fa).Name()
+		inNew[name] = append(inNew[name], slNew.sources(st.Val)...)
+	})
+	sl := newSlicer(c.P, fn)
+	w := &callWiring{call: call, srcs: map[string][]srcInfo{}}
+	for par, fld := range destParamField {
+		w.params = append(w.params, par)
+		for _, si := range inNew[fld] {
+			idx := -1
+			for i, p := range dn.Params {
+				if p == si.Param {
+					idx = i
+				}
+			}
+			if (si.Kind != "param" && si.Kind != "paramfield") || idx < 0 || idx >= len(call.Call.Args) {
+				w.srcs[par] = append(w.srcs[par], si)
+				continue
+			}
+			var ss []srcInfo
+			if si.Kind == "param" {
+				ss = sl.sources(call.Call.Args[idx])
+			} else {
+				ss = sl.fieldOfValue(call.Call.Args[idx], si.Field)
+			}
+			for _, x := range ss {
+				x.Mult *= si.Mult
+				w.srcs[par] = append(w.srcs[par], x)
+			}
+		}
+	}
+	sort.Strings(w.params)
+	return w, inNew
+}
+
 func tokenSources(ss []srcInfo) (names []string, mults map[string]int64) {
 	mults = map[string]int64{}
 	seen := map[string]bool{}
@@ -246,7 +309,7 @@ func c20r1(c *Check) {
 		return
 	}
 	rd := c.P.Func("imperatives", "", "readDestination")
-	w := wiringOfCall(c, rd, modPath+"/destination.New")
+	w, inNew := destinationWiring(c, rd)
 	documented := map[string]bool{}
 	for _, r := range rows {
 		documented[r.Setting] = true
@@ -283,24 +346,18 @@ func c20r1(c *Check) {
 		}
 	}
 	checkMatcherArgs(c, rd, "imperatives.readDestination", true, tok, nil)
-	// destination.New: parameter -> field
+	// destination.New: constructor input (parameter, or field of the configuration struct it takes) -> field
 	dn := c.P.Func("destination", "", "New")
-	got := map[string]string{}
-	allInstrs(dn, func(in ssa.Instruction) {
-		st, ok := in.(*ssa.Store)
-		if !ok {
-			return
-		}
-		fa, ok := st.Addr.(*ssa.FieldAddr)
-		if !ok {
-			return
-		}
-		if p, ok := st.Val.(*ssa.Parameter); ok {
-			got[p.Name()] = fieldOfAddr(fa).Name()
-		}
-	})
 	for par, fld := range destParamField {
-		c.Judge(got[par] == fld, "destination.New "+par+" → Destination."+fld, c.AtFn(dn), "parameter stored in its field", fmt.Sprintf("parameter %s is stored into field %q instead of %q", par, got[par], fld))
+		var got []string
+		okP := len(inNew[fld]) == 1
+		for _, si := range inNew[fld] {
+			got = append(got, si.String())
+			if (si.Kind != "param" && si.Kind != "paramfield") || !strings.EqualFold(si.Name, par) || si.Mult != 1 {
+				okP = false
+			}
+		}
+		c.Judge(okP, "destination.New "+par+" → Destination."+fld, c.AtFn(dn), "parameter stored in its field", fmt.Sprintf("field %q is fed by %v instead of the constructor input %s", fld, got, par))
 	}
 	// ---- addAgg
 	ra := c.P.Func("imperatives", "", "readAddAgg")
@@ -646,6 +703,12 @@ func checkUpdateFlag(c *Check, fn *ssa.Function, label string) {
 					for _, gname := range sl.guardOf(pred) {
 						trueOpts[strings.TrimPrefix(gname, "str:")] = true
 					}
+					// one assignment shared by several cases (the cases only select what is assigned, the flag is
+					// raised once behind the switch): it covers every case from whose body the next iteration of
+					// the option loop cannot be reached without passing the assignment
+					for _, gname := range casesFunnelledThrough(sl, loops, pred) {
+						trueOpts[strings.TrimPrefix(gname, "str:")] = true
+					}
 				}
 			} else if pred != nil && innermostLoop(loops, pred) != nil {
 				bad = "the flag is reset to false inside the option loop (" + c.P.InstrPos(pred.Instrs[len(pred.Instrs)-1]) + ")"
@@ -688,6 +751,53 @@ func checkUpdateFlag(c *Check, fn *ssa.Function, label string) {
 		bad = "giving " + strings.Join(missing, ", ") + " does not set the flag that makes the new filter take effect"
 	}
 	c.Judge(bad == "", key, c.At(call), "set to true under each of the six options and never cleared", bad+" — the command is acknowledged but the old filter stays in force")
+}
+
+// casesFunnelledThrough: the option cases (guards of sl) inside a loop whose body entry cannot reach the
+// loop header again (or leave the loop other than by returning) without passing block b; b has a single
+// successor, so passing b means leaving it on the edge the assignment in b is valid on.
+func casesFunnelledThrough(sl *slicer, loops []*Loop, b *ssa.BasicBlock) []string {
+	if b == nil || len(b.Succs) != 1 {
+		return nil
+	}
+	l := innermostLoop(loops, b)
+	if l == nil {
+		return nil
+	}
+	var out []string
+	for _, g := range sl.guards {
+		if !l.Body[g.block] || len(g.block.Succs) == 0 {
+			continue
+		}
+		body := g.block.Succs[0]
+		if body == b {
+			out = append(out, g.name)
+			continue
+		}
+		if !l.Body[body] {
+			continue
+		}
+		r := reachable(body, nil, map[*ssa.BasicBlock]bool{b: true})
+		escapes := r[l.Header]
+		for _, e := range l.Exits() {
+			// leaving the loop without passing b: only harmless when the function returns from there
+			if r[e.from] && e.from != b {
+				ret, isRet := e.to.Instrs[len(e.to.Instrs)-1].(*ssa.Return)
+				if !isRet {
+					escapes = true
+				} else if n := len(ret.Results); n > 0 {
+					// … and reports a failure (a nil error would acknowledge the command)
+					if k, ok := ret.Results[n-1].(*ssa.Const); ok && k.IsNil() {
+						escapes = true
+					}
+				}
+			}
+		}
+		if !escapes {
+			out = append(out, g.name)
+		}
+	}
+	return out
 }
 
 func isMatcherOpt(s string) bool {
@@ -1043,7 +1153,7 @@ func c20r3(c *Check) {
 		return
 	}
 	rd := c.P.Func("imperatives", "", "readDestination")
-	w := wiringOfCall(c, rd, modPath+"/destination.New")
+	w, _ := destinationWiring(c, rd)
 	for _, r := range rows {
 		par, ok := destOptionParam[r.Setting]
 		if !ok {
